@@ -150,7 +150,7 @@ class C05(Prop):
     )
     assumptions = (
         "oracle binds lexically (environment extension), so capture shows as a different value",
-        "Scatter and MarkovProduct binders are exercised by C10/C11 engines, not here",
+        "the MarkovProduct binder has its own family (names of the pairs and of time varied over one data set, capture by a later substitution); Scatter is exercised by the C11 engine",
     )
     cases = {"quick": 4500, "thorough": 100000}
 
@@ -169,7 +169,13 @@ class C05(Prop):
         # with a free input, built lazily (the argument depends on a free real variable) or under reflect
         fac = st.tuples(st.sampled_from(["a", "b"]), st.sampled_from(["ab", "a", "b", "c"]), st.sampled_from(["lazy-arg", "reflect", "lazy"]), st.integers(0, 5), st.booleans()).map(
             lambda t: {"factory": {"swap": t[0] == "b", "fresh": t[1], "style": t[2], "salt": t[3], "extra_input": t[4]}, "ast": ("num", 0.0, "real"), "mode": "eager"})
-        return st.one_of(main, main, main, main, main, main, main, main, main, main, main, hist, fac)
+        # the Markov-product binder: the time variable and the dropped step names are bound; (prev, curr) names chosen freely
+        mk = st.tuples(st.sampled_from(["add_mul", "logaddexp_add", "max_add"]), st.sampled_from([2, 2, 3, 4, 4]), st.permutations(["pa", "zb", "mc", "ad"]), st.sampled_from([1, 2, 2]),
+                       st.booleans(), st.sampled_from(["lazy", "reflect", "eager", "lazy"]), st.sampled_from(["t", "time", "zb_t"]), st.integers(0, 9972), st.integers(1, 96),
+                       st.sampled_from(["time-name", "time-name", "other-name", "prev-name"])).map(
+            lambda t: {"markov": {"sem": t[0], "duration": t[1], "names": list(t[2]), "npairs": t[3], "dep_time": t[4], "style": t[5], "time": t[6], "a": t[7], "b": t[8], "capture": t[9]},
+                       "ast": ("num", 0.0, "real"), "mode": "eager"})
+        return st.one_of(main, main, main, main, main, main, main, main, main, main, main, hist, fac, mk)
 
     # open known finding: lazily built Approximate leaks mangled names
     known_predicates = {
@@ -186,6 +192,8 @@ class C05(Prop):
             return f"[history] {case['history']}"
         if "factory" in case:
             return f"[factory] {case['factory']}"
+        if "markov" in case:
+            return f"[markov] {case['markov']}"
         return f"[{case['mode']}] {show(case['ast'])}"
 
     def signature(self, case):
@@ -193,10 +201,12 @@ class C05(Prop):
             return "history|" + case["history"]["style"]
         if "factory" in case:
             return "factory|" + case["factory"]["style"]
+        if "markov" in case:
+            return "markov|" + case["markov"]["style"]
         return ast_signature(case["ast"])
 
     def shrink_candidates(self, case):
-        if "factory" in case:
+        if "factory" in case or "markov" in case:
             return
         if "history" in case:
             h = case["history"]
@@ -335,6 +345,104 @@ class C05(Prop):
         if fresh in (i, j):
             stt.mark_nontrivial(case_hash(f))
 
+    def check_markov(self, mk, stt):
+        """MarkovProduct binds the time variable and the step names it drops.  The value must not depend on which names the
+        caller picks for the (prev, curr) pairs or for time, and a value substituted later for a free batch input may
+        mention a variable named like the bound time variable (or like a step name) without being captured."""
+        import itertools
+        from collections import OrderedDict
+
+        import funsor.interpretations as I
+        from funsor import Bint, Tensor
+        from funsor.interpreter import reinterpret
+        from funsor.sum_product import MarkovProduct
+        from vf.build import eval_at
+        from vf.props.c10 import build_markov, funsor_ops, oracle_fold
+
+        names, k = mk["names"], mk["npairs"]
+        dur = mk["duration"]
+        stt.count("markov:" + mk["style"])
+        # two assignments of names to the same data: as drawn, and with the prev names in the opposite order of the curr names
+        assignments = [[(names[2 * i], names[2 * i + 1], 2) for i in range(k)]]
+        srt = sorted(names[: 2 * k])
+        assignments.append([(srt[i], srt[2 * k - 1 - i], 2) for i in range(k)])
+        for ai, pairs in enumerate(assignments):
+            c10case = dict(kind="markov", sem=mk["sem"], duration=dur, pairs=pairs, batch=[("u", 3)], dep_time=mk["dep_time"], dep_batch=True,
+                           real=False, a=mk["a"], b=mk["b"], time=mk["time"] if ai == 0 else "s")
+            trans, time, step, full = build_markov(c10case)
+            S, P = funsor_ops(mk["sem"])
+            want = oracle_fold(c10case, full, None)
+            try:
+                if mk["style"] == "eager":
+                    m = MarkovProduct(S, P, trans, time, step)
+                else:
+                    with getattr(I, mk["style"]):
+                        m = MarkovProduct(S, P, trans, time, step)
+            except Exception as e:
+                raise Decline("markov-build-raised:" + innermost_funsor_frame(e))
+            expected = {"u"} | {p[0] for p in pairs} | {p[1] for p in pairs}
+            if any("__BOUND" in n_ for n_ in m.inputs) or time.name in m.inputs or not set(m.inputs) <= expected:
+                raise Violation("markov-inputs", f"MarkovProduct inputs {list(m.inputs)} expected {sorted(expected)}: {mk}")
+            if mk["style"] != "eager" and set(m.inputs) != expected:
+                raise Violation("markov-inputs", f"lazy MarkovProduct inputs {list(m.inputs)} expected {sorted(expected)}: {mk}")
+            try:
+                r = reinterpret(m) if mk["style"] != "eager" else m
+            except Exception as e:
+                raise Decline("markov-reinterpret-raised:" + innermost_funsor_frame(e))
+
+            def compare(res, extra_name, idx_data, tag):
+                # res[..., extra_name=j] must be the fold with the batch input u = idx_data[j]
+                free = ([extra_name] if extra_name else ["u"])
+                ranges = [range(len(idx_data))] if extra_name else [range(3)]
+                for j, *rest in itertools.product(*(ranges + [range(2)] * (2 * k))):
+                    pt = {free[0]: j}
+                    for (pn, cn, s_), i_ in zip(pairs, rest[:k]):
+                        pt[pn] = i_
+                    for (pn, cn, s_), i_ in zip(pairs, rest[k:]):
+                        pt[cn] = i_
+                    u = idx_data[j] if extra_name else j
+                    w = want[(u,) + tuple(rest)]
+                    if extra_name is not None and extra_name in pt and extra_name != free[0]:
+                        continue
+                    try:
+                        got = eval_at(res, pt)
+                    except Decline:
+                        raise
+                    except Exception as e:
+                        raise Decline("markov-binding-raised:" + innermost_funsor_frame(e))
+                    if not close(got, w):
+                        raise Violation("markov-" + tag, f"at {pt}: {np.asarray(got).tolist()} explicit fold {float(w)} (names {pairs}, time {time.name}): {mk}")
+
+            compare(r, None, None, "value-depends-on-names" if ai else "value")
+            # a later substitution for the free batch input whose value mentions a variable named like a bound one
+            cap = {"time-name": time.name, "other-name": "zz_free", "prev-name": pairs[0][0]}[mk["capture"]]
+            if cap in expected:
+                stt.count("markov:capture-name-is-free-in-the-product(skipped)")
+                continue
+            size = dur if mk["capture"] != "prev-name" else 2
+            idx_data = [(mk["a"] + 2 * j) % 3 for j in range(size)]
+            idx = Tensor(np.asarray(idx_data, dtype=np.int64), OrderedDict([(cap, Bint[size])]), 3)
+            for where in ("outside", "inside"):
+                try:
+                    if where == "outside" or mk["style"] == "eager":
+                        r2 = m(u=idx)
+                    else:
+                        with getattr(I, mk["style"]):
+                            r2 = m(u=idx)
+                    want_in = (expected - {"u"}) | {cap}
+                    if any("__BOUND" in n_ for n_ in r2.inputs) or not set(r2.inputs) <= want_in or (cap not in r2.inputs):
+                        raise Violation("markov-capture", f"after u={cap}-indexed value: inputs {list(r2.inputs)} expected {sorted(want_in)}: {mk}")
+                    r2 = reinterpret(r2)
+                except Violation:
+                    raise
+                except Exception as e:
+                    stt.decline("markov-substitution-raised:" + innermost_funsor_frame(e))
+                    continue
+                compare(r2, cap, idx_data, "capture")
+                stt.count("markov:substitution-compared")
+        stt.count("completed")
+        stt.mark_nontrivial(case_hash({"markov": mk}))
+
     def check(self, case, stt):
         import funsor.interpretations as I
         from funsor.interpreter import reinterpret
@@ -344,6 +452,8 @@ class C05(Prop):
             return self.check_history(case["history"], stt)
         if "factory" in case:
             return self.check_factory(case["factory"], stt)
+        if "markov" in case:
+            return self.check_markov(case["markov"], stt)
         node, mode = case["ast"], case["mode"]
         free = set(typeof(node)[0])
         binders = binder_names(node)
